@@ -11,3 +11,4 @@ CONSTANTS
   MaxNL = 3
 SPECIFICATION CtlSpec
 INVARIANTS CtlSeen
+CONSTRAINT CtlCons
